@@ -7,7 +7,7 @@ SPEC = {
     "agrees": "C12.agrees",
     "in_domain": "C12.in_domain",
     "model_prop": "C12.model_limit",
-    "n_quick": 70,
+    "n_quick": 60,
     "n_thorough": 4000,
     "shard": 5,
     "rule": "see harness/props/c12.go: one fixed or variable bucket per case on a real instance, written through WriteCSM over 1-3 years, "
